@@ -5,6 +5,7 @@ package exhirom
 // Contracts for the snesvc verifier (/verif). Comment-only; compiled only with -tags verif.
 
 //@ func BusAddressToPak
+//@   params busAddr
 //@   property C05
 //@   requires busAddr < 0x1000000
 //@   ensures (err == nil) == mapspec.ExHiROMOk(busAddr)
@@ -12,6 +13,7 @@ package exhirom
 //@   ensures err != nil ==> pakAddr == 0 && err == util.ErrUnmappedAddress
 
 //@ func PakAddressToBus
+//@   params pakAddr
 //@   property C05
 //@   requires pakAddr < 0x1000000
 //@   ensures (err != nil) == mapspec.PakRejected(pakAddr)
